@@ -268,7 +268,9 @@ class ParseMCNPCell:
             elif name == 'trcl':
                 keywords['trcl'] = self.parse_trcl_kw(elt, kw_list)
             elif name == 'u':
-                keywords['u'] = int(float(kw_list.pop()))
+                # U=-n places the cell in universe n, too (the sign only
+                # tells MCNP that the cell is not cut by its container)
+                keywords['u'] = abs(int(float(kw_list.pop())))
             elif name == 'rho':
                 # only relevant for LIKE n BUT cells
                 keywords['density'] = kw_list.pop()
